@@ -9,6 +9,7 @@ import (
 	"strings"
 	"testing"
 	"testing/synctest"
+	"time"
 
 	logging "github.com/ipfs/go-log/v2"
 	"pgregory.net/rapid"
@@ -116,6 +117,10 @@ func replay[S any](t *testing.T, prop string, run func(*testing.T, S) Result) {
 func bubble(t *testing.T, f func()) {
 	synctest.Test(t, func(*testing.T) {
 		f()
+		// time stops when the bubble's root goroutine exits: give goroutines that are still sleeping
+		// (delayed handlers, retry back-offs, late SetVerifier) the virtual time to finish first
+		time.Sleep(2 * time.Minute)
+		synctest.Wait()
 		if os.Getenv("VERIF_DEBUG_LEAK") != "" {
 			synctest.Wait()
 			buf := make([]byte, 1<<20)
